@@ -3,6 +3,8 @@
 // <name>_r (type-resolved, all uses). It is a selftest aid: the checks must
 // give the same verdicts on the renamed tree (see DESIGN §12.6).
 // With LOCALS=1 every local variable and named result is renamed too.
+// SWAPCMP=1 mirrors every comparison with side-effect-free operands (a < b -> b > a);
+// SWAPIF=1 turns every if/else into if !(c) with the arms exchanged.
 // usage: renameparams <repo-dir> <pkg-pattern>...
 package main
 
@@ -10,11 +12,34 @@ import (
 	"fmt"
 	"go/ast"
 	"go/format"
+	"go/token"
 	"go/types"
 	"os"
 
 	"golang.org/x/tools/go/packages"
 )
+
+// pure: no calls, receives or composite literals (operand order is then irrelevant,
+// and gofmt never needs extra parentheses in an if header).
+func pure(e ast.Expr) bool {
+	ok := true
+	ast.Inspect(e, func(nd ast.Node) bool {
+		switch x := nd.(type) {
+		case *ast.CallExpr:
+			if id, isId := x.Fun.(*ast.Ident); !isId || (id.Name != "len" && id.Name != "cap") {
+				ok = false
+			}
+		case *ast.UnaryExpr:
+			if x.Op == token.ARROW {
+				ok = false
+			}
+		case *ast.CompositeLit, *ast.FuncLit:
+			ok = false
+		}
+		return ok
+	})
+	return ok
+}
 
 func main() {
 	dir := os.Args[1]
@@ -64,8 +89,30 @@ func main() {
 				ren[o] = true
 			}
 		}
+		swapCmp, swapIf := os.Getenv("SWAPCMP") != "", os.Getenv("SWAPIF") != ""
+		mirror := map[token.Token]token.Token{token.EQL: token.EQL, token.NEQ: token.NEQ, token.LSS: token.GTR, token.GTR: token.LSS, token.LEQ: token.GEQ, token.GEQ: token.LEQ}
 		for i, f := range p.Syntax {
 			changed := false
+			if swapCmp || swapIf {
+				ast.Inspect(f, func(nd ast.Node) bool {
+					switch x := nd.(type) {
+					case *ast.BinaryExpr:
+						if m, ok := mirror[x.Op]; ok && swapCmp && pure(x.X) && pure(x.Y) {
+							x.X, x.Y, x.Op = x.Y, x.X, m
+							changed = true
+							n++
+						}
+					case *ast.IfStmt:
+						if eb, ok := x.Else.(*ast.BlockStmt); ok && swapIf {
+							x.Cond = &ast.UnaryExpr{Op: token.NOT, X: &ast.ParenExpr{X: x.Cond}}
+							x.Body, x.Else = eb, x.Body
+							changed = true
+							n++
+						}
+					}
+					return true
+				})
+			}
 			ast.Inspect(f, func(nd ast.Node) bool {
 				id, ok := nd.(*ast.Ident)
 				if !ok {
